@@ -12,9 +12,9 @@ trap cleanup EXIT
 if ! git -C "$WT" apply "$PATCH"; then echo "RESULT $(basename "$PATCH") $ID patch-does-not-apply"; exit 8; fi
 base=skipped
 if [ "$NOBASE" != "--no-baseline" ]; then
-  if VERIF_REPO="$WT" /verif/scripts/baseline.sh >"$OUT/baseline.log" 2>&1; then base=pass; else base=FAIL; fi
+  if VERIF_REPO="$WT" "$(dirname "$0")/baseline.sh" >"$OUT/baseline.log" 2>&1; then base=pass; else base=FAIL; fi
 fi
-VERIF_REPO="$WT" VERIF_OUT="$OUT" /verif/check "$ID" "$TIER" >"$OUT/check.log" 2>&1
+VERIF_REPO="$WT" VERIF_OUT="$OUT" "$(dirname "$0")/../check" "$ID" "$TIER" >"$OUT/check.log" 2>&1
 rc=$?
 viol=$(grep -c '^VIOLATION' "$OUT/check.log")
 echo "RESULT $(basename "$PATCH") $ID baseline=$base check_exit=$rc violations=$viol"
